@@ -40,7 +40,7 @@ class Coll:
 
     @property
     def known(self):
-        return self.src in ('tree', 'incoming', 'given', 'recv_subtree', 'empty')
+        return self.src in ('tree', 'incoming', 'given', 'recv_subtree', 'empty', 'root_descendants', 'tree_minus_root', 'recv_only', 'root_only')
 
     def members(self):
         """key of the underlying multiset of tasks (view / container independent)"""
@@ -126,6 +126,8 @@ class IdCheck:
                 x = self.ev(e.elts[0], env, func)
                 if isinstance(x, TaskV) and x.role == 'elem':
                     return x.of.but(note='singleton')
+                if isinstance(x, TaskV) and x.role in ('recv', 'root'):
+                    return Coll(x.role + '_only')
             return unk(src(e)[:40])
         if isinstance(e, ast.Dict) and not e.keys or match("dict()", e):
             return DictV('?', Coll('empty'))
@@ -147,6 +149,8 @@ class IdCheck:
             b = self.ev(e.value, env, func)
             if isinstance(b, TaskV) and e.attr == 'id':
                 return KeyV('taskid', b)
+            if isinstance(b, TaskV) and b.role == 'root' and e.attr == 'all_children':
+                return Coll('root_descendants')
             return unk(src(e)[:40])
         if isinstance(e, ast.IfExp) or isinstance(e, ast.BoolOp):
             return unk(src(e)[:40])
@@ -157,6 +161,14 @@ class IdCheck:
             return b
         if isinstance(b, Coll) and b.src == 'empty':
             return a
+        if isinstance(a, Coll) and isinstance(b, Coll) and a.view == b.view == 'task':
+            pair = {a.src, b.src}
+            other = b if a.src in ('recv_only', 'root_only') else a
+            only_self_filter = all(f[0] in ('not_self', 'not_none') for f in other.filters)
+            if pair == {'root_only', 'root_descendants'} and only_self_filter:
+                return Coll('tree')
+            if pair == {'recv_only', 'root_descendants'} and only_self_filter:
+                return Coll('tree_minus_root')       # the root task itself is missing (unless the receiver is the root)
         return unk('concatenation')
 
     def _call(self, e, env, func):
@@ -259,11 +271,20 @@ class IdCheck:
                     return ('notin_identity', s.members())
                 if isinstance(k, KeyV) and k.task is elem and k.view == 'taskid' and s.view == 'taskid':
                     return ('notin_taskid', s.members())
+        if m is not None and not pol:
+            k, s = self.ev(m['k'], var_env, func), self.ev(m['s'], var_env, func)
+            if isinstance(k, KeyV) and k.task is elem and k.view == 'objid' and isinstance(s, Coll) and s.src == 'empty':
+                return ('running_identity',)        # `if id(t) not in seen: seen.add(id(t))`: each object once
         m = match("$x is None", t)
         if m is not None and not pol:
             x = self.ev(m['x'], var_env, func)
             if x is elem:
                 return ('not_none',)
+        m = match("$x is $y", t)
+        if m is not None and not pol:
+            x, y = self.ev(m['x'], var_env, func), self.ev(m['y'], var_env, func)
+            if (x is elem and isinstance(y, TaskV) and y.role in ('recv', 'root')) or (y is elem and isinstance(x, TaskV) and x.role in ('recv', 'root')):
+                return ('not_self',)
         return ('opaque', ('' if pol else 'not ') + src(t)[:60])
 
     def _comp(self, e, env, func):
@@ -395,6 +416,11 @@ class IdCheck:
         env2 = dict(env, **{st.target.id: el})
         if not self._loop_body(list(st.body), env2, func, x, el, set(x.filters), contrib):
             return False
+        for n, v in list(contrib.items()):
+            c = v.coll if isinstance(v, DictV) else v
+            if isinstance(c, Coll) and ('running_identity',) in c.filters:
+                c2 = c.but(filters=frozenset(c.filters - {('running_identity',)}), dedup='identity' if c.view == 'task' else c.dedup)
+                contrib[n] = DictV(v.keyview, c2) if isinstance(v, DictV) else c2
         for n, v in contrib.items():
             old = env.get(n, unk(n))
             if isinstance(v, DictV):
@@ -699,6 +725,14 @@ def check_intersection(ctx, o, f):
         o.refute(f, f.node, 'receiving tree', "the receiving tree is _collect_subtree of the receiving task itself, not of the root of its tree "
                                               "(_find_root): tasks in other branches are not compared")
         bad = True
+    if any(c.src == 'tree_minus_root' for c in colls) and not any(c.src == 'tree' for c in colls):
+        o.refute(f, f.node, 'receiving tree without its root', "the receiving tree is built as the receiving task plus the DESCENDANTS of the root "
+                 "(root.all_children): the root task of a detached tree itself is never compared, a task with the root's id can be attached "
+                 "below any other member")
+        bad = True
+    elif any(c.src == 'root_descendants' for c in colls) and not any(c.src == 'tree' for c in colls):
+        o.refute(f, f.node, 'receiving tree without its root', "the receiving tree is root.all_children, which does not contain the root task itself")
+        bad = True
     byid = [c for c in colls if any(fl[0] == 'notin_taskid' for fl in c.filters)]
     if byid:
         o.refute(f, f.node, 'identity filter by id', "tasks already in the tree are recognised by id (`t.id not in ..`): a foreign task with a "
@@ -812,6 +846,13 @@ def check_collect_subtree(ctx, o, f):
                 if conds:
                     o.refute(f, c, c, "the subtrees of only some children are collected (" + ', '.join(facts.cond_texts(conds))[:80] + ")")
                     return
+    whiles = [n for n in walk_no_nested(f.node) if isinstance(n, ast.While)]
+    if not rec and len(whiles) == 1:
+        r = _collect_worklist(f, p, whiles[0])
+        if r is not None:
+            kind, node, msg = r
+            (o.site if kind == 'site' else o.refute if kind == 'refute' else o.undecided)(f, node, *([msg] if kind == 'site' else [node, msg]))
+            return
     flat = [n for n in ast.walk(f.node) if isinstance(n, ast.Attribute) and n.attr == 'all_children' and isinstance(n.value, ast.Name) and n.value.id == p]
     if covers is None and flat:
         covers = flat[0]
@@ -837,6 +878,62 @@ def _rename(f, ren):
     if k in ('and', 'or'):
         return (k, [_rename(x, ren) for x in f[1]])
     return f
+
+
+def _collect_worklist(f, p, wl):
+    """res = []; q = [task]; while q: cur = q.pop..(); res.append(cur); q.extend(<children of cur, any order>)   (the order is
+    irrelevant for the id test)  ->  (kind, node, message) or None"""
+    from sa.flow import flow_of
+    q = wl.test.id if isinstance(wl.test, ast.Name) else None
+    if q is None:
+        m = match("len($q) > 0", wl.test) or match("len($q) != 0", wl.test) or match("len($q)", wl.test)
+        q = m['q'].id if m is not None and isinstance(m['q'], ast.Name) else None
+    if q is None:
+        return None
+    fl = flow_of(f)
+    inits = [d for d in fl.defs_of(q) if d.kind == 'assign' and not any(x is d.stmt for x in ast.walk(wl))]
+    if len(inits) != 1:
+        return None
+    iv = inits[0].value
+    m = match("deque($x)", iv) or match("collections.deque($x)", iv)
+    iv = m['x'] if m is not None else iv
+    starts_self = bool(match(f"[{p}]", iv) or match(f"({p},)", iv))
+    starts_children = _children_of(iv, p) is not None
+    cur = None
+    for st in wl.body:
+        if isinstance(st, ast.Assign) and len(st.targets) == 1 and isinstance(st.targets[0], ast.Name) and \
+                (match(f"{q}.pop()", st.value) or match(f"{q}.popleft()", st.value) or match(f"{q}.pop(0)", st.value)):
+            cur = st.targets[0].id
+    if cur is None:
+        return None
+    emits = [st for st in wl.body if isinstance(st, ast.Expr) and match(f"$r.append({cur})", st.value)]
+    if len(emits) != 1 or cfg_of(f).conditions(cfg_of(f).node_of(emits[0])) != cfg_of(f).conditions(cfg_of(f).node_of(wl.body[0])):
+        return ('undecided', wl, "work-list walk: the task taken from the list is not collected exactly once, unconditionally")
+    pushes = []
+    for st in wl.body:
+        for x in ast.walk(st):
+            if isinstance(x, ast.Call) and isinstance(x.func, ast.Attribute) and isinstance(x.func.value, ast.Name) and x.func.value.id == q and \
+                    x.func.attr in ('extend', 'extendleft') and len(x.args) == 1 and _children_of(x.args[0], cur) is not None:
+                pushes.append((st, x))
+            elif isinstance(x, ast.AugAssign) and isinstance(x.target, ast.Name) and x.target.id == q and _children_of(x.value, cur) is not None:
+                pushes.append((st, x))
+    if not pushes:
+        if any(_children_of(x, cur) is not None for st in wl.body for x in ast.walk(st) if isinstance(x, ast.expr)):
+            return ('undecided', wl, "work-list walk: the children of a collected task are pushed in an unrecognised way")
+        return ('refute', wl, "_collect_subtree never descends into the children of the tasks it collects: a duplicate id deeper in the subtree "
+                              "is not seen")
+    pst = pushes[0][0]
+    if cfg_of(f).conditions(cfg_of(f).node_of(pst)) != cfg_of(f).conditions(cfg_of(f).node_of(wl.body[0])):
+        return ('refute', pst, "the children of a collected task are pushed only under a condition: parts of the subtree are not compared")
+    if starts_self:
+        return ('site', wl, "_collect_subtree = the task and the subtree of every child (work list)")
+    if starts_children:
+        extra = any(isinstance(n, ast.List) and any(isinstance(e, ast.Name) and e.id == p for e in n.elts) for n in ast.walk(f.node)) or \
+            any(match(f"$l.append({p})", n) for n in ast.walk(f.node))
+        if extra:
+            return ('site', wl, "_collect_subtree = the task and the subtree of every child (work list over the children)")
+        return ('refute', wl, "_collect_subtree does not list the task itself: the ids of the given tasks / of the root are not compared")
+    return None
 
 
 # ======================================================================================================================
@@ -1384,3 +1481,76 @@ def inplace_replacements(prog, typer, m):
                     t.slice.step is None and (match("self._list", t.value) or match("self._list", ex.expand(t.value))):
                 out.append((n, n.value))
     return out
+
+
+# ======================================================================================================================
+# every member is listed once
+
+def listed_once(ctx, o):
+    """A task given twice in an argument list must not end up twice in a child list.
+    (a) `L.append(x)` / `L.insert(i, x)` on a task's child list with x running over the argument list of the function needs the guard
+        `x not in L` (or goes through the parent assignment, which has it);
+    (b) an in-place replacement of the facade's list must not splice the argument list in as it is."""
+    from sa.flow import Expander
+    prog = ctx.prog
+    for f in prog.all_funcs():
+        if f.module.name != 'task' or isinstance(f.node, ast.Lambda) or f.cls not in ('Task', '_ChildrenList'):
+            continue
+        roles = T.Roles(prog, f, ctx.typer)
+        if roles.arg is None:
+            continue
+        ex = Expander(prog, f, ctx.typer, inline=False)
+        cfg = cfg_of(f)
+
+        def is_arg(e, _roles=roles):
+            """the argument (list), possibly converted more than once: _to_list(_to_list(arg)), list(arg) ..; NOT a de-duplicated form"""
+            while True:
+                m = match("_to_list($x)", e) or match("list($x)", e) or match("tuple($x)", e) or match("[$y for $y in $x]", e) or match("[*$x]", e)
+                if m is None:
+                    break
+                e = m['x']
+            return isinstance(e, ast.Name) and e.id == _roles.arg
+        roles.is_arg_list = is_arg
+        for n in walk_no_nested(f.node):
+            if not (isinstance(n, ast.Call) and isinstance(n.func, ast.Attribute) and n.func.attr in ('append', 'insert') and n.args):
+                continue
+            L = ex.expand(n.func.value)
+            if not (isinstance(L, ast.Attribute) and L.attr == '_Task__children'):
+                continue
+            x = n.args[-1]
+            cn = cfg.node_containing(n)
+            if not isinstance(x, ast.Name) or cn is None:
+                continue
+            loops = [fo for fo in cfg.enclosing_fors(cn) if isinstance(fo.target, ast.Name) and fo.target.id == x.id]
+            if not loops:
+                if f.qual == T.SETTERS['parent'] and x.id == f.self_name:
+                    o.site(f, n, "parent setter links the task itself (once per call, after the unlink)")
+                continue
+            it = ex.expand(loops[-1].iter, cfg.node_of(loops[-1]))
+            if not roles.is_arg_list(it):
+                continue
+            conds = facts.node_conditions(prog, f, n, ctx.typer, expand=True)
+            guarded = any(facts.cond_is(t, q, f"{x.id} in $l", False) is not None and
+                          same(facts.norm_cond(t, q)[0].comparators[0], L) for t, q in conds)
+            if guarded:
+                o.site(f, n, f"{f.name}: `{src(n)[:40]}` only when the task is not in that list yet")
+            else:
+                o.refute(f, n, n, f"{f.name} puts every element of its argument into the child list (`{src(n)[:50]}`) without the test "
+                                  f"`{x.id} not in {src(n.func.value)}`: a task named twice in the assignment is listed twice in children and in "
+                                  f"WBS.tasks (a later move / remove unlinks only one entry)")
+        if f.cls == '_ChildrenList':
+            for st, value in inplace_replacements(prog, ctx.typer, f):
+                vx = ex.expand(value)
+                parts = []
+
+                def summands(e):
+                    if isinstance(e, ast.BinOp) and isinstance(e.op, ast.Add):
+                        summands(e.left)
+                        summands(e.right)
+                    else:
+                        parts.append(e)
+                summands(vx)
+                raw = [p for p in parts if roles.is_arg_list(p)]
+                if len(parts) > 1 and raw:
+                    o.refute(f, st, st, f"{f.name} splices its argument `{roles.arg}` into the shared child list as it is (`{src(value)[:60]}`): a task "
+                                        f"named twice in the argument ends up twice in the children list and in WBS.tasks")
